@@ -213,5 +213,26 @@ PROPS["C09"] = {
     "assumptions": ["contributions are valid Go (the property's premise)", "import strings contain no NUL"],
 }
 
+PROPS["C02"] = {
+    "variants": ["v1", "v2"],
+    "lean": ["Gengo.Props.C02"],
+    "level": "proof",
+    "level_text": "Kernel-checked by mutual induction over type trees, on the model of rawNamer.Name threaded through the C07 tracker model: "
+                  "the text produced is the structural spelling of the type in which every foreign package carries exactly the alias that "
+                  "the final tracker state (= the printed import block) binds to it, local types are unqualified, every foreign package "
+                  "mentioned is tracked, the output package never is (also for trackers that were not told it), and earlier names stay "
+                  "valid under any later naming (cache transparency). PARTIAL: that the spelling is valid Go denoting an identical type is "
+                  "Go's surface syntax, outside the model; it is decided per generated case by type-checking the rendered names with "
+                  "go/types in a file of the output package carrying the emitted import block and comparing with types.Identical.",
+    "level_note": "Trusted: Lean kernel, the model (validated by correspondence incl. tracker state), go/parser + go/types as the oracle for "
+                  "the syntax layer, filepath.Base (transcribed) for the nil-tracker mode whose documented assumptions (package name = path "
+                  "base, bases distinct) are respected by the generator. Inherits C07's known findings (not generated here).",
+    "rule": "1..4 type expressions of depth <= 3 over builtins, named types in 10 package paths (shared leaves, '-' and '.', keyword segments) "
+            "and the output package, pointers, slices, arrays, maps, channels, anonymous structs, empty interfaces and function types; "
+            "output package one of 5 (same as / different from the types' packages); tracker nil, without local package, or knowing the "
+            "output package. Distinct = distinct line.",
+    "assumptions": ["named types have a non-empty package; the tracker's local package is the namer's or empty"],
+}
+
 # properties not claimed, with the reason (kept current by hand)
 NOT_APPLICABLE = {}
